@@ -439,6 +439,22 @@ func (e *Enc) loopModifies(li *loopInfo) (ws writeSets, all bool) {
 						ws.get(n, srt)
 					}
 				}
+			case *ssa.Send:
+				if e.fc != nil {
+					for _, h := range e.fc.Hooks {
+						if h.Callee == sendHookName(x.Chan) {
+							for _, st := range h.Stmts {
+								if st.Kind == "assign" {
+									if g, ok := e.prog.cs.Ghosts[st.Target]; ok {
+										if srt, err := ghostSort(g.Type); err == nil {
+											ws.whole("G$"+st.Target, srt)
+										}
+									}
+								}
+							}
+						}
+					}
+				}
 			case *ssa.Select:
 				if e.fc != nil {
 					for _, h := range e.fc.Hooks {
@@ -1145,7 +1161,7 @@ func (e *Enc) execInstr(ins ssa.Instruction) error {
 		return nil
 	case *ssa.Send:
 		e.abstracted["channel send"] = true
-		return nil
+		return e.onSend(x)
 	case *ssa.Select:
 		return e.execSelect(x)
 	case *ssa.SliceToArrayPointer, *ssa.MultiConvert:
